@@ -89,7 +89,12 @@ def impl_boot(files, base, kconfig, soc, d):
     cfgp = None
     if kconfig is not None:
         cfgp = os.path.join(d, ".config")
-        open(cfgp, "w").write(kconfig)
+        # the same configuration as text in the forms a build writes it: LF or CRLF line ends, with or without a final line break
+        import zlib
+        form = zlib.crc32(kconfig.encode()) % 4
+        text = kconfig if form != 2 else kconfig.rstrip("\n")
+        with open(cfgp, "w", newline=("\r\n" if form == 1 else "\n")) as fh:
+            fh.write(text)
     old = os.getcwd()
     os.chdir(d)
     before = {}
@@ -360,6 +365,27 @@ def cli_cases(res, tier, seed):
             return rc, log, {f: open(os.path.join(outd, f)).read() for f in os.listdir(outd)}
         with ThreadPoolExecutor(max_workers=12) as ex:
             outs = list(ex.map(one, range(len(cases))))
+        # sets that must be rejected, through the command line: the exit status says so and no file is written
+        unknown = None
+        k = 0
+        while unknown is None:
+            unknown = envelope_for(seed, 995000 + k, "nobody.example", "no_such_class", rng, d)
+            k += 1
+        up = os.path.join(d, "unknown.suit")
+        open(up, "wb").write(unknown)
+        for what, inputs in (("the same class twice", [envs["nrf54h20"][0], envs["nrf54h20"][0]]), ("a class no role is assigned to", [up]),
+                             ("a known and an unknown class", [envs["nrf54h20"][0], up])):
+            outd = os.path.join(d, "rej_" + str(len(what)))
+            os.makedirs(outd, exist_ok=True)
+            args = ["image", "boot"] + [a for f in inputs for a in ("--input-file", f)] + ["--storage-output-directory", outd]
+            rc, log = common.run_cli(args, d)
+            res.case(["cli-boot-reject", what], nontrivial=True)
+            res.count("cli:boot-reject")
+            left = sorted(os.listdir(outd))
+            if rc == 0:
+                res.spec_failures.append({"cli": "image boot", "set": what, "what": f"a set that must be rejected ({what}): the command line reported success (exit 0)", "files": left})
+            elif left:
+                res.spec_failures.append({"cli": "image boot", "set": what, "what": f"a rejected set ({what}) left files in the output directory", "files": left})
     for (soc, n, sp), (rc, log, files) in zip(cases, outs):
         res.case(["cli-boot", soc, n, sp], nontrivial=True)
         res.count("cli:boot")
